@@ -27,14 +27,14 @@ type dspace struct {
 }
 
 func dspaces(thorough bool) []dspace {
-	small := [][]string{{"A"}, {"A", "B"}, {"A", "a"}, {"A", "B", "C"}}
+	small := [][]string{{"A"}, {"A", "B"}, {"A", "a"}, {"A", "B", "C"}, {}}
 	s := []dspace{
 		{name: "delay-P2-D0", adds: small, batch: []int{1, 2, 3}, workers: []int{1, 2}, p: 2, d: 0},
 		{name: "delay-P1-D1", adds: small, batch: []int{1, 2}, workers: []int{1, 2}, p: 1, d: 1},
 	}
 	if thorough {
 		s = append(s,
-			dspace{name: "delay-P3-D0", adds: small[:3], batch: []int{1, 2}, workers: []int{1, 2}, p: 3, d: 0},
+			dspace{name: "delay-P3-D0", adds: append(append([][]string{}, small[:3]...), []string{}), batch: []int{1, 2}, workers: []int{1, 2}, p: 3, d: 0},
 			dspace{name: "delay-P2-D1", adds: append(append([][]string{}, small...), []string{"A", "B", "a"}), batch: []int{1, 2, 3}, workers: []int{1, 2}, p: 2, d: 1},
 			dspace{name: "delay-P1-D2", adds: small, batch: []int{1, 2}, workers: []int{1, 2}, p: 1, d: 2},
 		)
@@ -50,8 +50,9 @@ func runFor(sp dspace) vx.RunFunc {
 		cfg.Adds = sp.adds[x.In(len(sp.adds))]
 		cfg.BatchSize = sp.batch[x.In(len(sp.batch))]
 		cfg.Workers = sp.workers[x.In(len(sp.workers))]
+		cfg.NewestFirst = x.In(2) == 1
 		d := tq.VerifRunDelay(cfg, chooser{x})
-		cfgs := fmt.Sprintf("delayed=%s batch=%d workers=%d", strings.Join(cfg.Adds, ""), cfg.BatchSize, cfg.Workers)
+		cfgs := fmt.Sprintf("delayed=%s batch=%d workers=%d newestfirst=%v", strings.Join(cfg.Adds, ""), cfg.BatchSize, cfg.Workers, cfg.NewestFirst)
 		r := vx.Result{Transitions: int64(d.Steps)}
 		r.Outcome = fmt.Sprintf("rounds=%d announced=%v leftovers=%d errs=%d deadlock=%v", len(d.Rounds), roundSizes(d.Rounds), len(d.Leftovers), len(d.Errors), d.Deadlock)
 		r.NonTrivial = []string{cfgs + " | env: " + d.Script}
